@@ -8,6 +8,8 @@ SYM = {
     "CR": "\r", "VT": "\v", "FF": "\f", "LF": "\n", "BS": "\b", "US": "\x1f", "DEL": "\x7f",
     "NBSP": "\u00a0", "NEL": "\u0085", "IDSP": "\u3000", "EMSP": "\u2003", "ZWSP": "\u200b",
     "a`": "\u00e0", "aog": "\u0105", "dag": "\u2020", "ni": "\u4f60", "hori": "\u5800",
+    # added for non-ASCII literal delimiters (C10)
+    "e`": "\u00e8", "bxv": "\u2502", "bxh": "\u2500",
 }
 SYM_OF = {v: k for k, v in SYM.items()}
 
